@@ -14,7 +14,7 @@ class Gen:
         self.in_fn = 0
         self.in_loop = 0
         self.ncb = 0                  # number of callback call sites emitted (upper bound on invocations is dynamic)
-        self.feat = dict(tryc=True, fns=True, lambdas=True, cbs=True, errors=True, refs=True, vecs=False, globals=False)
+        self.feat = dict(tryc=True, fns=True, lambdas=True, cbs=True, errors=True, refs=True, vecs=False, globals=False, strs=False, trybias=False)
         if feat:
             self.feat.update(feat)
         self.hist = {}
@@ -154,11 +154,11 @@ class Gen:
         if k == 10 and self.in_fn:
             self.note("return")
             return "(if %s (block (return %s)))" % (self.bool_expr(), self.int_expr())
-        if k in (11, 12) and self.feat["tryc"]:
+        if (k in (11, 12) or (k in (3, 8) and self.feat["trybias"])) and self.feat["tryc"]:
             return self.try_stmt(depth)
-        if k == 13 and self.feat["tryc"]:
+        if (k == 13 or (k in (18, 19) and self.feat["trybias"])) and self.feat["tryc"]:
             self.note("throw")
-            return "(if %s (block (throw %s)))" % (self.bool_expr(), self.int_expr() if r.chance(2, 3) else self.bool_expr())
+            return "(if %s (block (throw %s)))" % (self.bool_expr(), self.thrown_expr())
         if k == 14 and self.feat["cbs"]:
             self.ncb += 1
             self.note("cb")
@@ -178,10 +178,19 @@ class Gen:
             return "(eq = (ref %s) (id %s))" % (n, r.choice(ints))
         return "(print %s)" % self.int_expr()
 
+    def thrown_expr(self):
+        r = self.rng
+        k = r.below(6)
+        if k == 0 and self.feat["strs"]:
+            return "(str %d)" % r.below(4)
+        if k <= 3:
+            return self.int_expr()
+        return self.bool_expr()
+
     def try_stmt(self, depth):
         r = self.rng
         self.note("try")
-        body = self.block(depth, extra_first=(["(throw %s)" % (self.int_expr() if r.chance(2, 3) else self.bool_expr())] if r.chance(1, 3) else None))
+        body = self.block(depth, extra_first=(["(throw %s)" % self.thrown_expr()] if r.chance(1, 3) else None))
         clauses = []
         for _ in range(r.choice([0, 1, 1, 1, 2])):
             form = r.below(4)
@@ -189,8 +198,8 @@ class Gen:
                 clauses.append("(catch %s)" % self.block(depth))
                 break                                    # an untyped bare clause catches everything: later clauses are dead
             n = self.fresh()
-            ty = r.choice([None, "int", "bool", "int"])
-            self.scopes.append({n: {None: "any", "int": "ctr", "bool": "bool"}[ty]})      # a caught value is const: read-only
+            ty = r.choice([None, "int", "bool", "int"] + (["string"] if self.feat["strs"] else []))
+            self.scopes.append({n: {None: "any", "int": "ctr", "bool": "bool", "string": "any"}[ty]})      # a caught value is const: read-only
             blk = self.block(depth)
             self.scopes.pop()
             clauses.append("(catch %s %s)" % (n, blk) if ty is None else "(catch %s %s %s)" % (n, ty, blk))
